@@ -611,7 +611,7 @@ package netty
 //@   loop 2 decreases len(recycleBuffers) - rangeindex
 //@   ensures flush_release_recheck: implies(count("netty.channel.Close") == 0, count("store c.running") == 1 && evis(last("store c.running") - 1, "Transport.Flush") && evis(last("store c.running") + 1, "len c.writeQueue") && evarg(last("store c.running"), 0) == 0)
 //@   ensures exit_when_empty_or_other_owner: implies(count("netty.channel.Close") == 0, (evres(last("store c.running") + 1, 0) == 0 && nemitted() == last("store c.running") + 2) || (evres(last("store c.running") + 1, 0) > 0 && evis(nemitted()-1, "cas c.running") && !evres(nemitted()-1, 0) && nemitted() == last("store c.running") + 3))
-//@   ensures only_close_tears_down@C05_C07: count("net.Conn.Close") == 0 && count("context.CancelFunc") == 0 && count("Pipeline.FireChannelInactive") == 0 && count("cas c.closed") == 0 && count("store c.closed") == 0
+//@   ensures only_close_tears_down: count("net.Conn.Close") == 0 && count("context.CancelFunc") == 0 && count("Pipeline.FireChannelInactive") == 0 && count("cas c.closed") == 0 && count("store c.closed") == 0
 //@   ensures failure_releases_then_closes: implies(count("netty.channel.Close") == 1, evis(nemitted()-1, "netty.channel.Close") && evis(nemitted()-2, "store c.running") && evarg(nemitted()-2, 0) == 0 && evarg(nemitted()-1, 0) == c && evarg(nemitted()-1, 1) != nil)
 //@ cellfresh (*channel).writeOnce: after "pbytes.Put" argument 0
 //@ order (*channel).writeOnce: "BuffersWriter.Writev" dominates "pbytes.Put"
